@@ -527,8 +527,9 @@ def run(ck):
                 ck.case(dict(kind="param-magnitude", seed=sd), nontrivial=True)
                 if bad:
                     ck.violation("rows-not-V-times-counts/parameter-jump-size", bad, dict(kind="param-magnitude", seed=sd))
-            spm = dict(nS=2, x0=[700, 0], kind="corpus", events=[dict(c="1", form=["lin", 0, None], trans=[dict(tt="T", o=0, d=1, mag=1)])])
-            cm = dict(spec=spm, seed=3, grid=[0.0, 2.0, 2.5, 8.0], kind="array", exact=True, n=1, pre_tau=None)
+            # (2600 events in all: also longer than any fixed-size record a path might be kept in)
+            spm = dict(nS=2, x0=[2600, 0], kind="corpus", events=[dict(c="1", form=["lin", 0, None], trans=[dict(tt="T", o=0, d=1, mag=1)])])
+            cm = dict(spec=spm, seed=3, grid=[0.0, 0.25, 2.0, 2.5, 9.0], kind="array", exact=True, n=1, pre_tau=None)
             try:
                 jm = judge_case(cm, spec_V(spm))
                 ck.case(strip(cm), nontrivial=True)
